@@ -114,6 +114,14 @@ NeverUnconverged == pc = "ret" => (stopAt > 0 \/ missAt > 0)
 RaiseOnlyAtLimit == pc = "raised" => (c.method # "fixed" /\ niters = c.maxIters + 1 /\ stopAt = 0 /\ missAt = 0)
 Terminates == <>Done
 
+\* every step of this model, projected on its control variables, is a step of SiftLoopInd - the typed skeleton on which
+\* Apalache proves Bounded / NeverUnconverged / RaiseOnlyAtLimit / FixedCount inductively and a ranking function
+\* (termination) for EVERY iteration limit, not only those in MaxItersSet            (intended design only: Dev = {})
+SLI == INSTANCE SiftLoopInd WITH maxIters <- c.maxIters, method <- c.method, energy <- c.energy
+RefinesInd == [][SLI!Next]_<<pc, niters, flag, stopAt, missAt>>
+IndInvHolds == SLI!IndInv
+VariantFalls == [][SLI!VariantDecreases]_<<pc, niters, flag, stopAt, missAt>>
+
 \* vacuity witnesses
 W_Raise == pc # "raised"
 W_MissLater == ~(pc = "ret" /\ missAt > 1)
